@@ -1,0 +1,30 @@
+//go:build verif
+
+package metadata
+
+// C03 (micro-indexes may only skip work): the per-block range check of a
+// rotated segment may drop a block for a `!=` filter only when it has a reason
+// that rules the block out: a range index of a checked column says no value can
+// satisfy the filter, or the column's index could not be read — never merely
+// because a checked column has no numeric values in the block (its index is a
+// bloom index): every record of such a block satisfies `col != <number>`.
+// Ghosts: rcRefuted (some range index refuted the filter), rcCmiErr (an index
+// could not be read), rcAnyCol (some column was looked at).
+// Checked by /verif/bin/govc.  Comment-only file.
+//@ ghostdecl rcRefuted int
+//@ ghostdecl rcCmiErr int
+//@ ghostdecl rcAnyCol int
+//@ func doRangeCheckForCol
+//@   props C03 C02
+//@   assumecalleerequires
+//@   ghostinit ghost(0, "rcRefuted") == 0 && ghost(0, "rcCmiErr") == 0 && ghost(0, "rcAnyCol") == 0
+//@   site callret segMicroIndex.GetCMIForBlockAndColumn #1:
+//@     ghostset ghost(0, "rcAnyCol") = 1
+//@     ghostset ghost(0, "rcCmiErr") = ite(result1 != nil && result1 != metadata.ErrCMIColNotFound, 1, ghost(0, "rcCmiErr"))
+//@   site callret metautils.CheckRangeIndex #1:
+//@     ghostset ghost(0, "rcRefuted") = ite(result, ghost(0, "rcRefuted"), 1)
+//@   loop 1:
+//@     invariant [an-unmatched-block-has-a-reason] implies(rangeOp == sutils.NotEquals && !matchedBlockRange, ghost(0, "rcRefuted") == 1 || ghost(0, "rcCmiErr") == 1 || ghost(0, "rcAnyCol") == 0)
+//@   site call delete #1:
+//@     assert [not-equals-prunes-a-block-only-for-a-reason] implies(rangeOp == sutils.NotEquals, ghost(0, "rcRefuted") == 1 || ghost(0, "rcCmiErr") == 1 || ghost(0, "rcAnyCol") == 0)
+//@ end
